@@ -4,7 +4,7 @@ ENTRY = {
                 "the reader's documented too-late fallback as a named action) and QLogFileProps checks its sentences as invariants over all histories; "
                 "QLogFileAlg.tla transcribes qlogfile.go's byte arithmetic (position, bufferStart, re-initialisation rule, probe window, binary-search loop and guards) "
                 "and TLC checks exhaustively that it refines the abstract reader for scaled constants (MaxEntry 4, BufSize 12, all files of 0..6 lines of lengths 1..3 incl. the 0-byte file, every target; negative controls: a line as long as the limit, and the code without the empty-file guard, must both violate the refinement). "
-                "Binding: (A1) every log of the abstract universe rendered with real line lengths, the real qLogFile/qLogReader put into every abstract state and every action performed, "
+                "Binding: (A1) every log of the abstract universe -- incl. every record layout (key order x client address x time form, 72) on logs of three lines -- rendered with real line lengths, the real qLogFile/qLogReader put into every abstract state and every action performed, "
                 "each observed edge looked up in the relation TLC emitted; (A2) every alignment class the scaled universe distinguishes (buffer start / probe-window edge relative to the line, x line-length class) realised by a solved real-size file and found again in the logged positions, plus TLC-enumerated layouts read as fractions of the real limits rendered as files around the 32 KiB probe window "
                 "and below/around/above the 1.6 MB buffer, op logs validated by TLC against the abstract reader; (B) the logged position/bufferStart/depth of the single-file level validated "
                 "against the algorithm spec with the real constants.  Every call runs under a watchdog.",
